@@ -654,6 +654,12 @@ def r9(p, rep):
     tparam = f.params[1]
     n = 0
     scopes = [g for g in p.funcs.values() if g is f or g.parent is f]
+    # ... and the methods of the class it calls on self (`self._get_by_tensor(tensor, ...)`): per-tensor helpers
+    for c in walk_no_nested(f.node):
+        if isinstance(c, ast.Call) and isinstance(c.func, ast.Attribute) and isinstance(c.func.value, ast.Name) and c.func.value.id == f.params[0] and f.cls is not None:
+            h = p.lookup_method(f.cls, c.func.attr)
+            if h is not None and h not in scopes and h.name != "_check_new_imports":
+                scopes.append(h)
     for g in scopes:
         cfg = common.cfg_of(g)
         for c in common.walk_with_lambdas(g.node):
@@ -670,6 +676,11 @@ def r9(p, rep):
                     lo, hi = common.len_bounds([(t, pol)], X)
                     if hi == 0:
                         v = common.single_reaching_value(cfg, c, X) if g is f else None
+                        if g is not f and g.parent is not f:
+                            # a method called per tensor: its collections are per tensor, unless it was handed all of them
+                            handed_all = any(isinstance(cc, ast.Call) and isinstance(cc.func, ast.Attribute) and cc.func.attr == g.name and any(isinstance(a, ast.Name) and a.id == tparam for a in cc.args) for cc in walk_no_nested(f.node))
+                            if handed_all:
+                                bad = X
                         src = v
                         if isinstance(v, ast.Call) and v.args:
                             # candidates computed by a helper from all tensors
